@@ -250,7 +250,11 @@ func cmdRun(args []string) int {
 			if len(seen) > 10 {
 				break
 			}
-			fmt.Printf("INCONCLUSIVE property=%s reason=%s\n", *prop, strings.ReplaceAll(r, "\n", " | "))
+			r = strings.ReplaceAll(r, "\n", " | ")
+			if len(r) > 500 {
+				r = r[:500] + "…"
+			}
+			fmt.Printf("INCONCLUSIVE property=%s reason=%s\n", *prop, r)
 		}
 		exit = 2
 	}
@@ -443,7 +447,7 @@ func writeEvidence(path string, p *core.Prop, tier string, seed int64, m *core.M
 	}
 	fams := map[string]any{}
 	for k, f := range m.Fam {
-		e := map[string]any{"cases": f.Cases, "planned": f.Planned, "evaluations": f.Evals, "nontrivial": f.Nontrivial}
+		e := map[string]any{"cases": f.Cases, "planned": f.Planned, "evaluations": f.Evals, "nontrivial": f.Nontrivial, "cpu_ms": f.CPUMs, "slowest_case_ms": f.MaxMs}
 		if f.Exhaustive && f.Cases == f.Planned {
 			e["exhaustive"] = true
 		}
